@@ -381,6 +381,11 @@ parse_chunk(const char *str, int *n_objs, int32 *chunk_lengths, int *chunk_rank)
         }
 
         if (c == 'x' || i == len - 1) {
+            /* the caller's chunk_lengths[] holds H4_MAX_VAR_DIMS entries */
+            if (c_index >= H4_MAX_VAR_DIMS) {
+                printf("Input Error: Too many chunk dimensions in <%s>\n", str);
+                goto out;
+            }
             if (c == 'x') {
                 sdim[k - 1]            = '\0';
                 k                      = 0;
